@@ -129,8 +129,10 @@ func NewDeadline(t time.Time) *Deadline {
 type DeadlineChan[T any] struct {
 	deadline *Deadline
 	closed   atomic.Bool
-	m        sync.Mutex
-	C        chan T // +checklocksignore:m
+	// closing is set as soon as Close has been called.
+	closing atomic.Bool
+	m       sync.Mutex
+	C       chan T // +checklocksignore:m
 }
 
 // Recv reads one byte slice from the underlying channel
@@ -211,7 +213,7 @@ func (d *DeadlineChan[T]) Send(b T) (err error) {
 // SetDeadline sets a time at which calls to Send and Recv will timeout
 func (d *DeadlineChan[T]) SetDeadline(t time.Time) error {
 	verifhook.Yield("common.DeadlineChan.SetDeadline:enter")
-	if d.closed.Load() {
+	if d.closed.Load() || d.closing.Load() {
 		return io.EOF
 	}
 	return d.deadline.SetDeadline(t)
@@ -232,14 +234,22 @@ func (d *DeadlineChan[T]) Cancel(err error) error {
 // io.EOF rather than os.ErrDeadlineExceeded even after the deadline has expired
 func (d *DeadlineChan[T]) Close() error {
 	verifhook.Yield("common.DeadlineChan.Close:enter")
+	// Wake blocked calls before taking the mutex: a Send waiting for space
+	// holds it, and only a cancellation releases that Send. closing keeps a
+	// concurrent SetDeadline from re-arming the deadline in the meantime. The
+	// closed flag itself still only changes under the mutex, i.e. while no
+	// Send is in flight.
+	first := d.closing.CompareAndSwap(false, true)
+	d.deadline.Cancel(io.EOF)
+
 	d.m.Lock()
 	defer d.m.Unlock()
 
-	if d.closed.Load() {
-		return io.EOF
-	}
 	d.closed.Store(true)
 	d.deadline.Cancel(io.EOF)
+	if !first {
+		return io.EOF
+	}
 	return nil
 }
 
